@@ -556,7 +556,9 @@ def rule_char_escapes(prog):
     out.add("<Char as Lexer>::lex", "lexer escape table extracted", bool(known), c.loc(lex[0]["sp"]), "escapes: %s" % sorted(known))
     TT = "spl_frontend::tokens::TokenType::Char"
     arm = None
-    for m in hir.nodes(disp[0]["body"], "Match"):
+    for m in hir.nodes_deep(prog, disp[0]["body"], 1, crate=c):
+        if m.get("k") != "Match":
+            continue
         for a in m["arms"]:
             for alt in hir.pat_alternatives(a["pat"]):
                 if hir.pat_variant(alt) == TT:
@@ -565,16 +567,17 @@ def rule_char_escapes(prog):
         out.missing("Char arm of Display for TokenType")
         return out
     emitted = set()
-    for l in hir.nodes(arm["body"], "Lit"):
+    arm_nodes = list(hir.nodes_deep(prog, arm["body"], 1, crate=c))
+    for l in [x_ for x_ in arm_nodes if x_.get("k") == "Lit"]:
         v = l["lit"].get("v") or ""
         if l["lit"]["k"] == "str":
             i = v.find("\\")
             while i >= 0 and i + 1 < len(v):
                 emitted.add(v[i:i + 2])
                 i = v.find("\\", i + 2)
-    esc_calls = [m_ for m_ in hir.nodes(arm["body"], "MethodCall") if m_["m"].startswith("escape_")]
+    esc_calls = [m_ for m_ in arm_nodes if m_.get("k") == "MethodCall" and m_["m"].startswith("escape_")]
     # `{:?}` of a char applies Rust's escape_debug (\t, \r, \', \\, \u{..}), far more than the lexer's table
-    for call in hir.nodes(arm["body"], "Call"):
+    for call in [x_ for x_ in arm_nodes if x_.get("k") == "Call"]:
         if (hir.callee(call) or "").endswith("::new_debug") and call["args"] and c.tstr(call["args"][0]["t"]).replace("&", "").strip() == "char":
             esc_calls.append({"m": "Debug for char (`{:?}`), i.e. escape_debug"})
     out.add("Display for TokenType", "Char is printed with escapes the lexer knows", emitted <= known and not esc_calls, c.loc(arm["sp"]),
@@ -593,11 +596,58 @@ def rule_index_elem(prog):
     for b in c.bodies:
         if not b["p"].startswith("lsp4spl::features") or "/tests" in c.file_of(b["sp"]) or b["k"] not in ("fn", "assoc_fn"):
             continue
-        for ix in hir.nodes(b["body"], "Index"):
+        defs_ix = {l_["pat"]["id"]: l_["init"] for l_ in hir.nodes(b["body"], "Let") if l_["pat"].get("k") == "Binding" and l_.get("init") is not None}
+
+        def searched_in(e_, vec_place, depth=0):
+            """is e_ an index that was found by searching the very vector that is indexed (`v.iter().position(..)`, also through a
+            local helper that is handed v, also unwrapped with `?`)"""
+            e_ = hir.strip(e_)
+            if depth > 4:
+                return False
+            if e_.get("k") == "Try":
+                return searched_in(e_["e"], vec_place, depth + 1)
+            pl_ = hir.path_local(e_)
+            if pl_ and pl_["id"] in defs_ix:
+                return searched_in(defs_ix[pl_["id"]], vec_place, depth + 1)
+            if e_.get("k") == "MethodCall" and e_["m"] in ("position", "rposition"):
+                r_ = hir.strip(e_["recv"])
+                while r_.get("k") == "MethodCall" and r_["m"] in ("iter", "into_iter", "enumerate", "rev", "as_slice"):
+                    r_ = hir.strip(r_["recv"])
+                return place(hir.strip_ref(r_)) == vec_place
+            if e_.get("k") == "Call":
+                hb_ = hir.local_callee_body(prog, e_)
+                if hb_ is not None and hb_["_crate"] is c and len(hb_["params"]) == len(e_["args"]):
+                    tail_ = hir.strip(hb_["body"])
+                    tail_ = hir.strip(tail_["b"]["expr"]) if tail_.get("k") == "BlockExpr" and tail_["b"].get("expr") is not None else tail_
+                    if tail_.get("k") == "MethodCall" and tail_["m"] in ("position", "rposition"):
+                        r_ = hir.strip(tail_["recv"])
+                        while r_.get("k") == "MethodCall" and r_["m"] in ("iter", "into_iter", "enumerate", "rev", "as_slice"):
+                            r_ = hir.strip(r_["recv"])
+                        rp_ = hir.path_local(hir.strip_ref(r_))
+                        for j_, q_ in enumerate(hb_["params"]):
+                            if rp_ and q_.get("k") == "Binding" and q_["id"] == rp_["id"]:
+                                return place(hir.strip_ref(hir.strip(e_["args"][j_]))) == vec_place
+            return False
+
+        for ix, ix_parents in hir.walk(b["body"]):
+            if ix.get("k") != "Index":
+                continue
             it = c.ty(ix["idx"]["t"])
             n += 1
             is_range = it["k"] == "adt" and it["p"].startswith("core::ops::range::")
             lit = hir.lit_value(ix["idx"]) is not None
+            if not (is_range or lit):
+                vp_ = place(hir.strip_ref(hir.strip(ix["base"])))
+                ip_ = place(hir.strip_ref(hir.strip(ix["idx"])))
+                # bounded by the condition of the enclosing loop / branch: `while i < v.len() { .. v[i] .. }`
+                for pr_ in ix_parents:
+                    cnd_ = hir.strip(pr_.get("cond") or {}) if pr_.get("k") in ("While", "If") else {}
+                    if cnd_.get("k") == "Binary" and cnd_["op"] == "<" and ip_ and place(hir.strip_ref(hir.strip(cnd_["l"]))) == ip_:
+                        r_ = hir.strip(cnd_["r"])
+                        if r_.get("k") == "MethodCall" and r_["m"] == "len" and place(hir.strip_ref(hir.strip(r_["recv"]))) == vp_ and vp_:
+                            lit = True
+                if vp_ and searched_in(ix["idx"], vp_):
+                    lit = True
             out.add(b["d"], "vectors are sliced by ranges, never element-indexed with a computed index", is_range or lit, c.loc(ix["sp"]),
                     "`v[i]` with a computed index panics when the index is out of bounds; in a handler the index depends on the "
                     "document and the cursor (e.g. more commas than parameters), and a panic kills the server")
